@@ -5,32 +5,6 @@ From DD Require Import Base.PyStr Base.Value Base.ValueFacts Path.PathModel Diff
   Diff.DiffFacts Diff.DiffFaithful Delta.DeltaModel Delta.DeltaFacts Delta.DeltaLocal Delta.DeltaEntries
   Delta.DeltaStruct Delta.DeltaRun Delta.DeltaGuard Delta.DeltaGood Delta.DeltaNodes Delta.DeltaSeqNodes Delta.DeltaRoundtrip.
 
-(* values without dicts and sets: typed equality up to order is equality *)
-Fixpoint ordfree (v : value) : bool :=
-  match v with
-  | VAtom _ => true
-  | VList xs | VTuple xs => forallb ordfree xs
-  | _ => false
-  end.
-
-Lemma all2_eq (f : value -> value -> bool) xs : forall ys,
-  Forall (fun x => forall y, f x y = true -> ordfree y = true -> x = y) xs ->
-  all2 f xs ys = true -> forallb ordfree ys = true -> xs = ys.
-Proof.
-  induction xs as [|x xs IH]; intros [|y ys] HF H O; cbn in H; try discriminate; [reflexivity|].
-  apply Forall_cons_iff in HF as [Hx HF]. apply andb_true_iff in H as [H1 H2]. cbn in O. apply andb_true_iff in O as [O1 O2].
-  f_equal; [apply Hx; assumption|apply IH; assumption].
-Qed.
-
-Lemma veqb_ordfree : forall a b, veqb a b = true -> ordfree b = true -> a = b.
-Proof.
-  induction a as [x|xs IH|xs IH|kvs IH|xs|xs] using value_ind'; intros b H O; destruct b; cbn in O; try discriminate O;
-    try (cbn in H; discriminate H).
-  - cbn in H. apply atom_eqb_eq in H. congruence.
-  - rewrite veqb_list in H. f_equal. eapply all2_eq; eassumption.
-  - rewrite veqb_tuple in H. f_equal. eapply all2_eq; eassumption.
-Qed.
-
 (* ---- decidable sufficient conditions ---- *)
 Fixpoint alias_freeb (l : list atom) : bool :=
   match l with
@@ -187,6 +161,48 @@ Proof.
   apply veqb_ordfree in V; [|exact O1]. subst t'.
   assert (E' : apply conv ro ao (delta_of prev t) prev = (t, 0)) by exact E.
   cbn [chain_from map]. rewrite E'. cbn [fst]. f_equal. apply IH; assumption.
+Qed.
+
+(* ... and for all values (dicts and sets included).  The constructor call of a type
+   change whose values are omitted acts on the CURRENT value, which is known up to dict /
+   set order only: [okb_all a b] asks that it rebuilds b from every such value.  It holds
+   outright when the values are stored (bidirectional / always_include_values) and when
+   a holds no dict / set. *)
+Definition okb_all (a b : value) : Prop :=
+  forall v, wf v = true -> veqb v a = true -> okb conv bidir always v a b.
+
+Lemma okb_all_flags a b : bidir || always = true -> okb_all a b.
+Proof. intros F v _ _. apply okb_flags. exact F. Qed.
+
+Lemma okb_all_ordfree a b : guards c conv bidir always a b -> ordfree a = true -> okb_all a b.
+Proof.
+  intros (W1 & _ & _ & OK & _) O v _ V. apply veqb_ordfree in V; [|exact O]. subst v.
+  apply okb_self; assumption.
+Qed.
+
+Fixpoint chain_okv (prev : value) (rest : list value) : Prop :=
+  match rest with
+  | [] => True
+  | t :: r => okb_all prev t /\ chain_okv t r
+  end.
+
+Lemma chain_okv_flags : bidir || always = true -> forall rest prev, chain_okv prev rest.
+Proof. intros F. induction rest as [|t r IH]; intros prev; [exact I|]. split; [apply okb_all_flags; exact F|apply IH]. Qed.
+
+(* the running result stays equal, up to dict / set order, to the corresponding value of
+   the chain, without error; the start may itself be any well-formed value equal to the
+   first one up to that order *)
+Theorem chain_veq rest : forall cur prev, chain_ok prev rest -> chain_okv prev rest ->
+  wf cur = true -> veqb cur prev = true ->
+  Forall2 (fun res t => snd res = 0 /\ veqb (fst res) t = true) (chain_from cur prev rest) rest.
+Proof.
+  induction rest as [|t r IH]; intros cur prev H HV W V; [constructor|].
+  cbn in H, HV. destruct H as [(G & OV & HO) H]. destruct HV as [OB HV].
+  destruct (roundtrip_from hatom udiff ops c conv bidir always Hinj Hconv ro ao prev t cur G OV W V (OB cur W V) HO) as (t' & E & V').
+  assert (E' : apply conv ro ao (delta_of prev t) cur = (t', 0)) by exact E.
+  cbn [chain_from]. rewrite E'. cbn [fst]. constructor; [split; [reflexivity|exact V']|].
+  apply IH; [exact H|exact HV| |exact V'].
+  destruct G as (_ & W2 & _). apply (veqb_facts t' t V' W2).
 Qed.
 
 End Chain.
